@@ -37,3 +37,25 @@ func init() {
 			ruleR02_3, ruleR02_4},
 	})
 }
+
+func init() {
+	register(&propertySpec{
+		ID: "C05", NeedsServer: true,
+		Explanation: "decides the order of the client's apply steps, that the client checkpoint only moves forward, the order and error-gating of the server's steps, that a pull is a log-ordered range from the client's checkpoint, and that the checkpoint arithmetic has the intended normal forms; plus the server's accept/ignore/fail partition and the own-operation filter. NOT decided: exactly-once application and equality of client and server state over whole histories (run-time quantities; F15 shows the intended formulas are not sufficient under message loss).",
+		Assumptions: []string{"the normal forms encoded in R05.5 are the protocol's intended ones"},
+		Rules: []ruleFn{ruleR05_1, ruleR05_2, ruleR05_3, ruleR05_4, ruleR05_5,
+			func(w *World, r *Report) { ruleR06_1(w, r, false) }, ruleR07_3},
+	})
+	register(&propertySpec{
+		ID: "C06", NeedsServer: true,
+		Explanation: "decides the shape of the server's sequence assignment (accept iff seq == Cseq+1 with exactly one Sseq increment, ignore iff seq <= Cseq, otherwise MissingOps), that the stored key is an injective format over (duid, sseq) under the unique _id, the commit order, and that no storage error is dropped. NOT decided: that log, end-of-log and checkpoints agree after every request of every history; the success criterion of UpdateDatatype under equal timestamps.",
+		Assumptions: []string{"MongoDB enforces uniqueness of _id"},
+		Rules:       []ruleFn{func(w *World, r *Report) { ruleR06_1(w, r, false) }, ruleR06_2, ruleR06_3, ruleR06_4, ruleR05_3},
+	})
+	register(&propertySpec{
+		ID: "C07", NeedsServer: true,
+		Explanation: "decides the three structural defences against lost/duplicated/delayed messages: the server ignores a re-pushed operation by client sequence, a stale response cannot move the client checkpoint back, and own operations are filtered by origin on one side (known finding F15: they are not); plus apply order and checkpoint arithmetic. NOT decided: the count-based skipping itself, which is arithmetic over run-time checkpoints.",
+		Assumptions: []string{},
+		Rules: []ruleFn{func(w *World, r *Report) { ruleR06_1(w, r, true) }, ruleR05_2, ruleR07_3, ruleR05_1, ruleR05_5},
+	})
+}
